@@ -43,7 +43,7 @@ pub struct Input {
     pub source: u8,
     /// 0 default 8 KiB, 1 ArrayBuf<N >= max |file|>, 2 Vec
     pub buffer: u8,
-    /// per call: (use next instead of read, target type 0 DecodedBytes / 1 File / 2 Parser); cycled
+    /// per call: (use next instead of read, target type 0 DecodedBytes / 1 File / 2 Parser, +3 = through read_nb / next_nb); cycled
     pub script: Vec<(bool, u8)>,
     /// io::Read source only: fractions (x/65536 of the stream length) at which the source first reports
     /// `ErrorKind::Interrupted` - a condition every std::io::Read consumer has to retry
@@ -111,12 +111,71 @@ fn drain_parser(p: Parser<'_>, cap: usize) -> Item {
     Item::Events(ev, err)
 }
 
+fn nb_dec<T, E: ByteSourceErr>(r: nb::Result<T, ReadDecodedError<E>>) -> Result<T, Item> {
+    match r {
+        Ok(v) => Ok(v),
+        // no source used by this check ever blocks: a would-block here is a wrong result
+        Err(nb::Error::WouldBlock) => Err(Item::Io(false, usize::MAX)),
+        Err(nb::Error::Other(e)) => Err(conv_dec(e)),
+    }
+}
+
+fn nb_parsed<T, E: ByteSourceErr + core::fmt::Debug>(r: nb::Result<T, ReadParsedError<E>>) -> Result<T, Item> {
+    match r {
+        Ok(v) => Ok(v),
+        Err(nb::Error::WouldBlock) => Err(Item::Io(false, usize::MAX)),
+        Err(nb::Error::Other(e)) => Err(conv_parsed(e)),
+    }
+}
+
+/// The same call through the non-blocking API (`read_nb` / `next_nb`).
+fn call_nb<R, E, B>(reader: &mut SmlReader<R, B>, use_next: bool, target: u8, cap: usize) -> Item
+where
+    R: ByteSource<ReadError = E>,
+    E: ByteSourceErr + core::fmt::Debug,
+    B: Buffer,
+{
+    match (use_next, target) {
+        (false, 0) => match nb_dec(reader.read_nb::<DecodedBytes>()) {
+            Ok(b) => Item::Bytes(b.to_vec()),
+            Err(i) => i,
+        },
+        (false, 1) => match nb_parsed(reader.read_nb::<File>()) {
+            Ok(f) => Item::File(rfile_of(&f)),
+            Err(i) => i,
+        },
+        (false, _) => match nb_dec(reader.read_nb::<Parser>()) {
+            Ok(p) => drain_parser(p, cap),
+            Err(i) => i,
+        },
+        (true, 0) => match nb_dec(reader.next_nb::<DecodedBytes>()) {
+            Ok(None) => Item::None,
+            Ok(Some(b)) => Item::Bytes(b.to_vec()),
+            Err(i) => i,
+        },
+        (true, 1) => match nb_parsed(reader.next_nb::<File>()) {
+            Ok(None) => Item::None,
+            Ok(Some(f)) => Item::File(rfile_of(&f)),
+            Err(i) => i,
+        },
+        (true, _) => match nb_dec(reader.next_nb::<Parser>()) {
+            Ok(None) => Item::None,
+            Ok(Some(p)) => drain_parser(p, cap),
+            Err(i) => i,
+        },
+    }
+}
+
 fn call<R, E, B>(reader: &mut SmlReader<R, B>, use_next: bool, target: u8, cap: usize) -> Item
 where
     R: ByteSource<ReadError = E>,
     E: ByteSourceErr + core::fmt::Debug,
     B: Buffer,
 {
+    // targets 3..=5 mean: the same target type through the non-blocking API
+    if target >= 3 {
+        return call_nb(reader, use_next, target - 3, cap);
+    }
     match (use_next, target) {
         (false, 0) => match reader.read::<DecodedBytes>() {
             Ok(b) => Item::Bytes(b.to_vec()),
@@ -167,7 +226,7 @@ where
     for (j, e) in exp.iter().chain(std::iter::repeat(&Expect::End).take(3)).enumerate() {
         let (use_next, target) = if i.script.is_empty() { (true, 0) } else { i.script[j % i.script.len()] };
         let got = call(&mut reader, use_next, target, cap);
-        log.push(format!("{}::<{}> -> {}", if use_next { "next" } else { "read" }, ["DecodedBytes", "File", "Parser"][target as usize % 3], got.short()));
+        log.push(format!("{}{}::<{}> -> {}", if use_next { "next" } else { "read" }, if target >= 3 { "_nb" } else { "" }, ["DecodedBytes", "File", "Parser"][target as usize % 3], got.short()));
         let ok = match e {
             Expect::Discard(n) => got == Item::DecodeErr(DecodeErr::DiscardedBytes(*n)),
             Expect::File(k) => match target % 3 {
@@ -302,6 +361,9 @@ pub fn eval_input(i: &Input, obs: &mut Obs) -> Result<(), Fail> {
         obs.class("io::Read:with-interrupted");
     }
     obs.class(format!("target-types:{}", targets.len()));
+    if i.script.iter().take(exp.len()).any(|s| s.1 >= 3) {
+        obs.class("api:nb-calls-used");
+    }
     for g in &i.noises {
         obs.class(Noise::suffix_class(g));
     }
@@ -311,7 +373,7 @@ pub fn eval_input(i: &Input, obs: &mut Obs) -> Result<(), Fail> {
 
 impl Prop for C10 {
     const ID: &'static str = "C10";
-    const RULE: &'static str = "k in 0..5 (thorough 0..9) G4 files, each framed by encode or encode_streaming, separated and surrounded by G3 noise (possibly empty; suffix classes: 0x1b runs, partial start sequences, end look-alikes), read through SmlReader over {slice, iterator, io::Read (a one-byte-at-a-time reader that also reports ErrorKind::Interrupted at 0..3 positions, which std::io consumers must retry)} with {default 8 KiB, ArrayBuf<N >= max|F|>, Vec} buffers under a per-call script choosing read vs next and the target type (DecodedBytes, File, Parser). Oracle: constructed expectation - for each i DiscardedBytes(|g_i|) if the noise is non-empty, then file i in the requested representation (bytes == payload, File == independent reading R3, Parser events == R3 events); after the last frame IoErr(Eof, |g_k|) once if |g_k| > 0, then next -> None / read -> IoErr(Eof, 0) on three further calls; and transport::decode + complete::parse composed by hand give the same. Non-trivial: >= 2 files with at least one non-empty noise, or >= 2 different target types in one script. Distinct = distinct inputs.";
+    const RULE: &'static str = "k in 0..5 (thorough 0..9) G4 files, each framed by encode or encode_streaming, separated and surrounded by G3 noise (possibly empty; suffix classes: 0x1b runs, partial start sequences, end look-alikes), read through SmlReader over {slice, iterator, io::Read (a one-byte-at-a-time reader that also reports ErrorKind::Interrupted at 0..3 positions, which std::io consumers must retry)} with {default 8 KiB, ArrayBuf<N >= max|F|>, Vec} buffers under a per-call script choosing read vs next, blocking vs non-blocking API (read_nb / next_nb) and the target type (DecodedBytes, File, Parser). Oracle: constructed expectation - for each i DiscardedBytes(|g_i|) if the noise is non-empty, then file i in the requested representation (bytes == payload, File == independent reading R3, Parser events == R3 events); after the last frame IoErr(Eof, |g_k|) once if |g_k| > 0, then next -> None / read -> IoErr(Eof, 0) on three further calls; and transport::decode + complete::parse composed by hand give the same. Non-trivial: >= 2 files with at least one non-empty noise, or >= 2 different target types in one script. Distinct = distinct inputs.";
     type Case = Case;
     type Input = Input;
 
@@ -322,7 +384,7 @@ impl Prop for C10 {
     fn strategy(tier: Tier) -> BoxedStrategy<Case> {
         let maxk = tier.pick(5usize, 9);
         (0..maxk)
-            .prop_flat_map(|k| (vec((cfile(false), any::<bool>()), k), vec(prop_oneof![2 => Just(Noise { toks: vec![], suffix: crate::gen::stream::NSuffix::None }), 3 => noise(300, true)], k + 1), 0u8..3, 0u8..3, vec((any::<bool>(), 0u8..3), 1..8), vec(any::<u16>(), 0..4)))
+            .prop_flat_map(|k| (vec((cfile(false), any::<bool>()), k), vec(prop_oneof![2 => Just(Noise { toks: vec![], suffix: crate::gen::stream::NSuffix::None }), 3 => noise(300, true)], k + 1), 0u8..3, 0u8..3, vec((any::<bool>(), 0u8..6), 1..8), vec(any::<u16>(), 0..4)))
             .prop_map(|(files, noises, source, buffer, script, interrupts)| Case { files, noises, source, buffer, script, interrupts })
             .boxed()
     }
@@ -381,7 +443,7 @@ impl Prop for C10 {
         let mut script = Vec::new();
         for c in kv.all("call") {
             let (n, t) = c.split_once(':').ok_or("bad call")?;
-            script.push((n == "next", t.parse::<u8>().map_err(|e| e.to_string())? % 3));
+            script.push((n == "next", t.parse::<u8>().map_err(|e| e.to_string())? % 6));
         }
         let mut interrupts = Vec::new();
         for x in kv.all("interrupt_at") {
